@@ -373,6 +373,8 @@ def _cfg_saw(tier):
     if tier == "thorough":
         for cmode in ("none", "idx"):
             for amode in ("none", "matrix"):
+                if (cmode, amode) == ("idx", "matrix"):
+                    continue    # (every candidate subset x every availability matrix of 3 x 2 exceeds the 20 min budget)
                 out.append(dict(n=3, A=2, cmode=cmode, amode=amode, b=2, napp=1, perf=None))
     return out
 
